@@ -34,6 +34,9 @@ class _Guard:
         self.ctx, self.seconds, self.what = ctx, seconds, what
 
     def _fire(self, signum, frame):
+        # the exception may surface wrapped (raised inside a ctypes argument conversion it becomes ctypes.ArgumentError) and be
+        # caught by a driver's catch-all: from now on nothing the case reports counts, the guard's exit turns it into a time-out
+        self.ctx.guard_interrupted = True
         raise CaseTimeout()
 
     def __enter__(self):
